@@ -192,3 +192,84 @@ pub(crate) mod mpsc {
         }
     }
 }
+
+/// Scheduler-owned replacement for `std::net::{TcpListener, TcpStream}` as
+/// imported by /repo/src/nrepl.rs under cfg(wilfred_garden_verif) (hook H5).
+/// Outside the simulator both forward to std (so `garden-verif nrepl` serves
+/// real sockets); inside it a `TcpStream` is an in-memory endpoint owned by the
+/// simulator (blocking reads are scheduling points; faults are injected by the
+/// endpoint implementation in nrepl_api.rs).
+pub(crate) mod net {
+    use std::io::{self, Read, Write};
+    use std::net::SocketAddr;
+    use std::sync::Arc;
+
+    pub(crate) trait SimEndpoint: Send + Sync {
+        fn read(&self, buf: &mut [u8]) -> io::Result<usize>;
+        fn write(&self, buf: &[u8]) -> io::Result<usize>;
+        fn flush(&self) -> io::Result<()>;
+    }
+
+    pub(crate) enum TcpStream {
+        Std(std::net::TcpStream),
+        Sim(Arc<dyn SimEndpoint>),
+    }
+
+    impl TcpStream {
+        pub(crate) fn peer_addr(&self) -> io::Result<SocketAddr> {
+            match self {
+                TcpStream::Std(s) => s.peer_addr(),
+                TcpStream::Sim(_) => Ok(SocketAddr::from(([127, 0, 0, 1], 1))),
+            }
+        }
+        pub(crate) fn try_clone(&self) -> io::Result<TcpStream> {
+            match self {
+                TcpStream::Std(s) => s.try_clone().map(TcpStream::Std),
+                TcpStream::Sim(e) => Ok(TcpStream::Sim(Arc::clone(e))),
+            }
+        }
+    }
+
+    impl Read for TcpStream {
+        fn read(&mut self, buf: &mut [u8]) -> io::Result<usize> {
+            match self {
+                TcpStream::Std(s) => s.read(buf),
+                TcpStream::Sim(e) => e.read(buf),
+            }
+        }
+    }
+
+    impl Write for TcpStream {
+        fn write(&mut self, buf: &[u8]) -> io::Result<usize> {
+            match self {
+                TcpStream::Std(s) => s.write(buf),
+                TcpStream::Sim(e) => e.write(buf),
+            }
+        }
+        fn flush(&mut self) -> io::Result<()> {
+            match self {
+                TcpStream::Std(s) => s.flush(),
+                TcpStream::Sim(e) => e.flush(),
+            }
+        }
+    }
+
+    /// Only ever a real listener: the accept loop (`run_nrepl`) is not run
+    /// inside the simulator.
+    pub(crate) struct TcpListener(std::net::TcpListener);
+
+    impl TcpListener {
+        pub(crate) fn bind(addr: &str) -> io::Result<TcpListener> {
+            std::net::TcpListener::bind(addr).map(TcpListener)
+        }
+        pub(crate) fn local_addr(&self) -> io::Result<SocketAddr> {
+            self.0.local_addr()
+        }
+        pub(crate) fn set_nonblocking(&self, nb: bool) -> io::Result<()> {
+            self.0.set_nonblocking(nb)
+        }
+        pub(crate) fn accept(&self) -> io::Result<(TcpStream, SocketAddr)> {
+            self.0.accept().map(|(s, a)| (TcpStream::Std(s), a))
+        }
+    }
+}
